@@ -31,6 +31,7 @@ func drawReadCfg(r *eng.Run, apps []int) ReadCfg {
 			cfg.Bufio = []int{16, 64, 4096}[r.T.Int(sim.LSize, 3)]
 		}
 		cfg.CopyDrain = r.T.Chance(sim.LCfg, 1, 6)
+		cfg.CopyValue = r.T.Chance(sim.LCfg, 1, 6)
 	case AppReadMessage:
 		cfg.Variant = r.T.Int(sim.LCfg, 2)
 		cfg.SeedMsgs = r.T.Bool(sim.LCfg)
@@ -47,8 +48,15 @@ func drawReadCfg(r *eng.Run, apps []int) ReadCfg {
 	case AppNextReader:
 		cfg.Extended = r.T.Chance(sim.LCfg, 1, 4)
 		cfg.CopyDrain = r.T.Chance(sim.LCfg, 1, 6)
+		if r.T.Chance(sim.LCfg, 1, 5) {
+			cfg.Bufio = []int{16, 64, 4096}[r.T.Int(sim.LSize, 3)]
+		}
 	case AppReadMessage, AppReadData:
 		cfg.Extended = cfg.Variant == 0 && r.T.Chance(sim.LCfg, 1, 4)
+		if r.T.Chance(sim.LCfg, 1, 5) {
+			// (odd sizes: the helper is given a *bufio.ReadWriter)
+			cfg.Bufio = []int{16, 17, 64, 65, 4096, 4097}[r.T.Int(sim.LSize, 6)]
+		}
 	}
 	return cfg
 }
